@@ -274,8 +274,8 @@ func replayG2(cell g2Cell) *g2Result {
 }
 
 // report turns failing cells into finding keys. One key per (ending class, clause[, prior
-// mode for the flush clause]); the class is replaced by the individual ending when only some
-// endings of the class fail, and the extension is named only when just one of the two fails.
+// mode for the flush clause]); the class is replaced by the individual endings when only a
+// minority of the class fails, and the extension is named only when just one of the two fails.
 func (r *g2Result) report(c *ev.Check) {
 	for _, h := range r.Harness {
 		c.HarnessError("%s", h)
@@ -335,7 +335,8 @@ func (r *g2Result) report(c *ev.Check) {
 				c.Fail(key, g.clause, size, f.Cell, fmt.Sprintf("cell %s / prior=%s / .%s\nrequired: %s\nobserved: status=%d\nstdout=%q\nstderr=%q", f.Cell.Ending, f.Cell.Prior, f.Cell.Ext, requirement(g.clause), f.Obs.Status, trunc(f.Obs.Stdout, 300), trunc(f.Obs.Stderr, 300)))
 			}
 		}
-		if len(byEnding) == classSize[g.class] {
+		if 2*len(byEnding) > classSize[g.class] {
+			// most endings of the class fail: one finding for the class (the cells are in the detail)
 			emit(g.class, fs)
 		} else {
 			for en, efs := range byEnding {
